@@ -84,6 +84,20 @@ pub static OPS: &[Op] = &[
     }},
     // ---------------------------------------------------------------- C18 float interop (Unit x f64), bit patterns
     Op { name: "unit_mul_f64", sig: &[Ty::Unit, Ty::U64], pre: always, f: |a| {
+        // a third raw bit patterns, a third integers scaled by a power of two (reaches both cast paths and the bounds), a third
+        // short decimals
+        let b = a[1].int() as u64;
+        let q = match b % 3 {
+            0 => f64::from_bits(b),
+            1 => ((b >> 8) as i64 as f64) * (2.0f64).powi((b & 0xff) as i32 - 150),
+            _ => (((b >> 8) % 2_000_001) as f64 - 1_000_000.0) / 1000.0,
+        };
+        let factor = unit_ns(a[0].unit()) as f64;
+        let p = q * factor;
+        (show_d(a[0].unit() * q), show_total(clamp(p as i128)))
+    }},
+    // raw bit pattern of the factor (used to replay Kani's counterexamples)
+    Op { name: "unit_mul_f64_bits", sig: &[Ty::Unit, Ty::U64], pre: always, f: |a| {
         let q = f64::from_bits(a[1].int() as u64);
         let factor = unit_ns(a[0].unit()) as f64;
         let p = q * factor;
